@@ -129,6 +129,18 @@ Proof. exact ex_plain_stl_ok. Qed.
 Theorem C07_ttml_plain_faithful : plain_faithful 1000000 ttml_plain_ok ttml_enc ttml_dec.
 Proof. exact ttml_plain_faithful. Qed.
 Print Assumptions C07_ttml_plain_faithful.
+(* ANY source document the source reader accepts - styled, with metadata, in any rendering - whose text the destination
+   can carry: converting it through the plain view gives a destination that reads back as the source's cues (times
+   truncated to the destination's unit), with any operation sequence in between.  (For which pairs and sources the
+   library's conversion IS the conversion through the plain view - the destination writer ignoring everything the source
+   reader sets besides text - is established by the byte comparison of suite convplain on styled sources.) *)
+Theorem C07_any_source : forall (SA SB : Type) (decA : SA -> res plain) uB okB (encB : plain -> res SB) decB,
+  plain_faithful uB okB encB decB ->
+  forall ops src p, decA src = Ok p -> okB (ops_plain ops p) ->
+  exists dst, convert_plain_ops decA encB ops src = Ok dst /\ decB dst = Ok (ptrunc uB (ops_plain ops p)).
+Proof. exact @plain_ops_sink. Qed.
+Print Assumptions C07_any_source.
+
 (* the command-line tool: every sub-command with valid flags applies its one operation between the two codecs (cli_ops is
    the flag validation of astisub/main.go; the CLI binary's output bytes are compared with cli_run for every sub-command,
    every pair of codecs and invalid flag values, suite cliplain) *)
